@@ -1,0 +1,14 @@
+//go:build verif
+
+// Contracts for package fs, checked by /verif/engine (govc). Comment-only file: with the build
+// tag off it is not compiled, with it on it contributes no code.
+
+package fs
+
+//@ func ISO3k3y.clear3k3yData
+//@   tags C04,C11
+//@   requires start >= 0 && start + len(data) < 1<<62
+//@   modifies elems(data)
+//@   ensures[C11] forall k :: 0 <= k && k < len(data) ==> data[k] == ((0xF70 <= start + k && start + k < 0x1070) ? 0 : old(data[k])) @masked
+//@   loop 1 invariant forall k :: 0 <= k && k < len(data) ==> data[k] == ((0xF70 <= start + k && start + k < 0x1070 && k < i) ? 0 : old(data[k])) @masked-prefix
+//@   loop 1 decreases min(0x1070, start + len(data)) - start - i
